@@ -354,6 +354,12 @@ OBLIGATIONS += [
        ["RawCallbackSystem::run_with_cleanup", "run_initialized_system (exclusive branch)"], ["src/ecs/callbacks.rs"],
        "2 runs of one exclusive (&mut World) system that queues one command",
        "per run: body, cleanup, then the body's queued commands; initialized exactly once"),
+    k2("callbacks.initialize_noop", _k2h("ecs::callbacks", "callbacks_initialize_after_run_is_a_noop"), ["C13"],
+       ["RawCallbackSystem::initialize", "CallbackSystem::initialize", "RawCallbackSystem::run_with_cleanup"], ["src/ecs/callbacks.rs"],
+       "an exclusive and an ordinary system (with a Local), each run twice with initialize() called in between; a boxed callback",
+       "initialize() on a callback that has already run is a no-op: the wrapped system is initialized exactly once (Bevy rebuilds an "
+       "exclusive system's parameter state on every initialize, so a forwarded second initialize would reset its Locals); the ordinary "
+       "system's Local continues", witness=[["state"]]),
     k2("callbacks.boxed", _k2h("ecs::callbacks", "callbacks_boxed_system_and_empty"), ["C04", "C13"],
        ["CallbackSystem::new", "CallbackSystem::run_with_cleanup", "run_initialized_system"], ["src/ecs/callbacks.rs"],
        "an Empty callback; 2 runs of a boxed ordinary system with a Local", "Empty still runs the cleanup once; the boxed system keeps its state; "
